@@ -59,6 +59,24 @@ theorem committed_blocks_on_one_branch (n : Nat) (hn : 1 ≤ n) (byz : Nat → B
       one_per_view := one_per_view, wf := wf, lock := lock }
   exact committed_on_one_branch D Tb Tc
 
+/-- **Ledgers are prefix-related.**  Two commit logs, each a hash chain growing from genesis (every
+block's parent is the block committed before it, views increasing — what the ledger oracle checks
+of every replica's log), whose newest blocks both meet the commit condition, are prefix-related:
+one is a prefix of the other.  (Empty logs are prefixes of everything.) -/
+theorem ledgers_prefix_related (S : Sys) (D : Discipline S) (l1 l2 : List S.Blk)
+    (h1 : ChainLog S S.gen l1) (h2 : ChainLog S S.gen l2)
+    {b' b'' c' c'' : S.Blk}
+    (Tb : l1 ≠ [] → ThreeChain (S := S) (logHead S.gen l1) b' b'')
+    (Tc : l2 ≠ [] → ThreeChain (S := S) (logHead S.gen l2) c' c'') :
+    l1 <+: l2 ∨ l2 <+: l1 := by
+  by_cases e1 : l1 = []
+  · left; rw [e1]; exact List.nil_prefix
+  by_cases e2 : l2 = []
+  · right; rw [e2]; exact List.nil_prefix
+  rcases committed_on_one_branch D (Tb e1) (Tc e2) with h | h
+  · exact Or.inr (logs_prefix D.par_gen l1 l2 h1 h2 h)
+  · exact Or.inl (logs_prefix D.par_gen l2 l1 h2 h1 h)
+
 /-- The simplified-HotStuff vote condition (`parent.view ≥ locked.view`) is a special case of the
 lock rule used above: a parent at the lock's view *is* the lock. -/
 theorem simple_rule_is_lock_rule (S : Sys) (gen_view : S.view S.gen = 0)
